@@ -73,7 +73,7 @@ def name(s):
 def rules(M):
     R = {}
     R['name->log'] = (M.MName(ctx=ast.Load), lambda n: isinstance(n, ast.Name) and isinstance(n.ctx, ast.Load),
-                      lambda n: ast.Call(func=T(name('log')), args=[n], keywords=[], _tmpl=True), 'log(__FST_)', False)
+                      lambda n: ast.Call(func=T(name('log')), args=[n], keywords=[], _tmpl=True), 'log(__FST_)', True)
     R['binop->f'] = (M.MBinOp(), lambda n: isinstance(n, ast.BinOp),
                      lambda n: ast.Call(func=T(name('f')), args=[n], keywords=[], _tmpl=True), 'f(__FST_)', True)
     R['binop-swap'] = (M.MBinOp(left=M.M(l=...), right=M.M(r=...)), lambda n: isinstance(n, ast.BinOp),
@@ -128,11 +128,11 @@ def rules(M):
     # templates written inside grouping parentheses (the usual way to write a multi-line template), matched node shares its
     # parentheses with the enclosing call
     R['genexp->list'] = (M.MGeneratorExp(), lambda n: isinstance(n, ast.GeneratorExp),
-                         lambda n: ast.Call(func=T(name('list')), args=[n], keywords=[], _tmpl=True), '(list(__FST_))', False)
+                         lambda n: ast.Call(func=T(name('list')), args=[n], keywords=[], _tmpl=True), '(list(__FST_))', True)
     R['genexp->or'] = (M.MGeneratorExp(), lambda n: isinstance(n, ast.GeneratorExp),
-                       lambda n: ast.BoolOp(op=ast.Or(), values=[n, T(ast.Tuple(elts=[], ctx=ast.Load()))], _tmpl=True), '(__FST_ or\n ())', False)
+                       lambda n: ast.BoolOp(op=ast.Or(), values=[n, T(ast.Tuple(elts=[], ctx=ast.Load()))], _tmpl=True), '(__FST_ or\n ())', True)
     R['name->par'] = (M.MName(ctx=ast.Load), lambda n: isinstance(n, ast.Name) and isinstance(n.ctx, ast.Load),
-                      lambda n: ast.BinOp(left=n, op=ast.Add(), right=T(ast.Constant(value=0)), _tmpl=True), '(__FST_ +\n 0)', False)
+                      lambda n: ast.BinOp(left=n, op=ast.Add(), right=T(ast.Constant(value=0)), _tmpl=True), '(__FST_ +\n 0)', True)
     R['def->wrapper'] = (M.MFunctionDef(args=M.M(a=...)), lambda n: isinstance(n, ast.FunctionDef), wrapper,
                          'def wrapper(__FST_a):\n    return impl(__FSS_a)', False)
     # a template of several statements: the matched statement is replaced by all of them (and, nested, what they contain is searched)
@@ -145,7 +145,7 @@ def rules(M):
                     ('FST', '[__FST_q, __FST_p] as both', 'pattern'), False)
     R['value->or-as'] = (M.MMatchValue(), lambda n: isinstance(n, ast.MatchValue),
                          lambda n: ast.MatchAs(pattern=ast.MatchOr(patterns=[n, T(ast.MatchSingleton(value=None))], _tmpl=True), name='v', _tmpl=True),
-                         ('FST', '(__FST_ | None) as v', 'pattern'), False)
+                         ('FST', '(__FST_ | None) as v', 'pattern'), True)
     # whole-match slot where the slot is an element made of several nodes (a parameter with its default): structure unchanged
     R['args-identity'] = (M.Marguments(), lambda n: isinstance(n, ast.arguments), lambda n: n, ('FST', '__FST_', 'arguments'), True)
     # a slot inside a string literal of the template receives the matched source as text (documented): the result is a Constant
@@ -154,7 +154,7 @@ def rules(M):
     # a plain-AST pattern carrying an expression-context INSTANCE: compared only when sub(..., ctx=True)
     R['name-x-ctx'] = (ast.Name(id='x', ctx=ast.Load()),
                        lambda n: isinstance(n, ast.Name) and n.id == 'x' and (not CTX[0] or isinstance(n.ctx, ast.Load)),
-                       lambda n: ast.Subscript(value=n, slice=T(ast.Constant(value=0)), ctx=ast.Load(), _tmpl=True), '__FST_[0]', False)
+                       lambda n: ast.Subscript(value=n, slice=T(ast.Constant(value=0)), ctx=ast.Load(), _tmpl=True), '__FST_[0]', True)
     # template material that itself matches the pattern and stands BEHIND the slot: with nested=True the search goes into the put
     # template, substitutes inside the captured content and comes back to the template's own nodes - they must stay as written
     R['binop->g-tail'] = (M.MBinOp(), lambda n: isinstance(n, ast.BinOp),
@@ -174,11 +174,19 @@ CTX = [False]
 
 
 class Ref:
-    def __init__(self, pred, build, whole, nested, count, on, loop, back):
+    def __init__(self, pred, build, whole, nested, count, on, loop, back, cb=None):
         self.pred, self.build, self.whole = pred, build, whole
         self.nested, self.count, self.on, self.loop, self.back = nested, count, on, loop, back
         self.unique = 0
         self.total = 0
+        self.cb, self.ncalls = cb, 0
+
+    def skip(self):
+        """the callback is asked before every substitution (every loop iteration too); truthy = skip this one"""
+        if self.cb is None:
+            return False
+        self.ncalls += 1
+        return cb_skips(self.cb, self.ncalls)
 
     def budget(self):
         return self.count == 0 or self.unique < self.count
@@ -226,9 +234,13 @@ class Ref:
         if self.on == 'leave':
             self.visit_children(node)
             if not skip_self and not getattr(node, '_tmpl', False) and self.pred(node) and self.budget():
+                if self.skip():
+                    return node
                 return self.subst(node)
             return node
         if not skip_self and not getattr(node, '_tmpl', False) and self.pred(node) and self.budget():
+            if self.skip():  # a skipped match is not substituted and not counted; nested search still goes into it
+                return self.visit_children(node) if self.nested else node
             new = self.subst(node)
             if self.nested:
                 if new is node:  # identity template: the whole-match top node is not considered again, its children are
@@ -245,10 +257,19 @@ class Ref:
         new = self.build(node)
         n = 1
         while self.loop and n < self.loop and new is not node and not getattr(new, '_tmpl', False) and self.pred(new):
+            if self.skip():
+                break
             new = self.build(new)
             self.total += 1
             n += 1
         return new
+
+
+CALLBACKS = ('1', '2', '2+', 'odd', 'all')  # which calls of the callback answer "skip"
+
+
+def cb_skips(cb, n):
+    return {'1': n == 1, '2': n == 2, '2+': n >= 2, 'odd': n % 2 == 1, 'all': True}[cb]
 
 
 def settings(rule):
@@ -261,6 +282,15 @@ def settings(rule):
     if rule == 'call-unwrap':
         yield dict(nested=False, count=0, on='enter', loop=2, back=False)
         yield dict(nested=False, count=0, on='enter', loop=3, back=False)
+    if rule in ('name->log', 'binop->f', 'call-unwrap', 'list-slice', 'binop->g-tail', 'if-swap'):
+        for cb in CALLBACKS:
+            for nested in (False, True):
+                yield dict(nested=nested, count=0, on='enter', loop=False, back=False, cb=cb)
+            yield dict(nested=False, count=0, on='leave', loop=False, back=False, cb=cb)
+            yield dict(nested=False, count=1, on='enter', loop=False, back=True, cb=cb)
+            if rule == 'call-unwrap':
+                yield dict(nested=False, count=0, on='enter', loop=3, back=False, cb=cb)
+                yield dict(nested=False, count=1, on='enter', loop=2, back=False, cb=cb)
     if rule == 'name-x-ctx':
         for ctx in (False, True):
             for count in (0, 2):
@@ -284,11 +314,22 @@ def run_case(fst, M, pi, rname, st, res):
         return  # the generic settings do not say which contexts count
     kw = {} if ctx is None else {'ctx': ctx}
     ref = Ref(pred, build, whole, **st)
+    cb = st.pop('cb', None)
+    after = []
+    if cb is not None:
+        ncalls = [0]
+
+        def callback(m):
+            ncalls[0] += 1
+            return cb_skips(cb, ncalls[0])
+        kw['callback'] = callback
+        kw['callback_after'] = after.append
     try:
         want_tree = ref.visit(tree)
         want_src = ast.unparse(want_tree)
         want = ast.parse(want_src)
     except RecursionError:
+        res.outcomes['reference-not-applicable:RecursionError'] += 1
         return
     except Exception as e:  # noqa: BLE001
         res.outcomes['reference-not-applicable:' + e.__class__.__name__] += 1
@@ -329,6 +370,10 @@ def run_case(fst, M, pi, rname, st, res):
         res.fail(cid, 'counts-differ-from-reference', f'src={src!r}\nresult={root.src!r}\ncounts={(unique, total)} reference={(ref.unique, ref.total)}',
                  params, rep)
         return
+    if cb is not None and (ncalls[0], len(after)) != (ref.ncalls, ref.total):
+        res.fail(cid, 'callback-calls-differ-from-reference', f'src={src!r}\nresult={root.src!r}\ncallback calls={ncalls[0]} callback_after calls='
+                 f'{len(after)} reference={(ref.ncalls, ref.total)}', params, rep)
+        return
     # text outside substituted statements is preserved: top-level statements without any substitution keep their full lines
     if rname.endswith('identity'):
         if O.dump(ast.parse(root.src)) != O.dump(ast.parse(src)):
@@ -355,6 +400,8 @@ def run_case(fst, M, pi, rname, st, res):
         pat2, _, _, tmpl2, _ = rules(M)[rname]
         if isinstance(tmpl2, tuple):
             tmpl = fst.FST(tmpl2[1], tmpl2[2])
+        if cb is not None:
+            ncalls[0] = 0
         out2 = root2.sub(pat2, tmpl, st['nested'], count=st['count'], on=st['on'], loop=st['loop'], back=st['back'], **kw)
         if out2 is not root2 or root2.src != root.src or O.dump_pos(root2.a) != O.dump_pos(root.a):
             res.fail(cid, 'sub-differs-from-subn', f'src={src!r}\nsubn={root.src!r}\nsub ={root2.src!r}', params, rep)
